@@ -22,6 +22,9 @@ func debugExplore(repo, spec string) {
 	x := NewExplorer(p, fn, Hooks{})
 	x.Debug = true
 	x.MaxStates = 2000000
+	if os.Getenv("VDBG_FILTER") != "" {
+		x.Filter = noConfigFilter
+	}
 	x.Run(nil)
 	type bc struct{ b, n int }
 	var bcs []bc
@@ -47,4 +50,25 @@ func debugExplore(repo, spec string) {
 	}
 	sort.Strings(ks)
 	fmt.Printf("tracked keys (%d):\n  %s\n", len(ks), strings.Join(ks, "\n  "))
+}
+
+// noConfigFilter drops facts about configuration fields of the receiver/parameters
+// (write-once options such as s.ReadTimeout) and about integer comparisons.
+func noConfigFilter(k string) bool {
+	if strings.Contains(k, "*(p:") && !strings.Contains(k, "*(*(") {
+		return false
+	}
+	if strings.Contains(k, " < ") || strings.Contains(k, " <= ") || strings.Contains(k, "c:\"") {
+		return false
+	}
+	return true
+}
+
+// noIntFilter keeps boolean / nil-ness facts about configuration fields but
+// drops numeric comparisons.
+func noIntFilter(k string) bool {
+	if strings.Contains(k, " < ") || strings.Contains(k, " <= ") || strings.Contains(k, "c:\"") {
+		return false
+	}
+	return true
 }
